@@ -13,7 +13,7 @@ CFG = dict(
          "Deliveries are compared with the model run under the pre-sort order the delivery witnesses, and judged by the relational oracle Spec.valid; distinct = distinct (cfg, op list)",
     assumptions=["result rows are compared as delivered: streamsql puts every GROUP BY column into the result row whether selected or not, so rows of one batch always differ in the group column (DISTINCT can never merge two groups' rows; the dedup loop itself is covered by distinct_first_occurrence)",
                  "wf: output column names pairwise different, different from the group column and not starting with __; SELECT items do not reference other output columns",
-                 "the SELECT-side placeholder name is a hash of the call text; the model identifies a placeholder with its call, i.e. assumes the hash injective on the calls of one query",
+                 "the SELECT-side placeholder name is the hex-encoded call text (injective; repaired in /repo 2427a79 — it was a 31-polynomial hash, under which SUM(Aa) and SUM(BB) collided); the model identifies a placeholder with its call, and the generator produces same-function aggregates over the columns Aa / BB (equal hashes) to notice a return of the collision",
                  "aggregate definitions (SUM/AVG/MIN/MAX/COUNT over the rows whose argument has a value) are C03's subject and shared between model and spec; generated data has no NULL cells",
                  "expr-lang's behaviour for the generated shapes (float64 arithmetic + - * /, comparisons, short-circuit && ||, evaluation error = predicate false / item NULL) is tabulated in the model and validated by correspondence only",
                  "sort.SliceStable computes the stable sort when less is a strict weak order (homogeneous key columns, no NaN); mixed-kind keys are outside sort_sorted and are not generated (tagged mixed-key-kinds if they occur)",
